@@ -504,3 +504,27 @@ where
         } //end k
     } //end l
 }
+
+// ---------------------------------------------------------------------------
+// verification hooks (feature `verif-hooks`): add-only read access to the
+// stored scaling of the PSD cone.  No behaviour is added.
+// ---------------------------------------------------------------------------
+#[cfg(feature = "verif-hooks")]
+pub mod verif_hooks_psdcone {
+    use super::*;
+
+    pub fn λ<T: FloatT>(k: &PSDTriangleCone<T>) -> &[T] {
+        &k.data.λ
+    }
+    pub fn Λisqrt<T: FloatT>(k: &PSDTriangleCone<T>) -> &[T] {
+        &k.data.Λisqrt
+    }
+    /// column-major n×n data of R
+    pub fn R<T: FloatT>(k: &PSDTriangleCone<T>) -> &[T] {
+        k.data.R.data()
+    }
+    /// column-major n×n data of R⁻¹
+    pub fn Rinv<T: FloatT>(k: &PSDTriangleCone<T>) -> &[T] {
+        k.data.Rinv.data()
+    }
+}
